@@ -55,12 +55,13 @@ def _build_fieldmon(work, variant='asan'):
     if variant == 'no-byteorder-macros': # a little-endian compiler that predefines none of __BYTE_ORDER__ / __ORDER_*_ENDIAN__ (MSVC, IAR, older gcc)
         return vlib.compile_many(work, 'fieldmon_no_byteorder_macros', src, ['-O2', '-g', '-U__BYTE_ORDER__', '-U__ORDER_LITTLE_ENDIAN__',
                                                                              '-U__ORDER_BIG_ENDIAN__', '-U__ORDER_PDP_ENDIAN__'])
-    if variant == 'Os':                  # size optimisation (__OPTIMIZE_SIZE__ paths)
-        return vlib.compile_many(work, 'fieldmon_Os', src, ['-Os', '-g'])
+    if variant == 'Os':                  # size optimisation (__OPTIMIZE_SIZE__ paths), compiled as C23 (-std=gnu2x: __STDC_VERSION__ > 201710L paths)
+        return vlib.compile_many(work, 'fieldmon_Os', src, ['-Os', '-g', '-std=gnu2x'])
     if variant == 'march-native':        # whatever vector extensions this machine has
         return vlib.compile_many(work, 'fieldmon_march_native', src, ['-O2', '-g', '-march=native'])
     if variant == 'unsigned-char':       # plain char is unsigned on ARM/AArch64/PowerPC/RISC-V Linux targets
-        return vlib.compile_many(work, 'fieldmon_unsigned_char', src, ['-O2', '-g', '-funsigned-char'])
+        # (and plain int bit-fields are unsigned on some of their compilers: -funsigned-bitfields)
+        return vlib.compile_many(work, 'fieldmon_unsigned_char', src, ['-O2', '-g', '-funsigned-char', '-funsigned-bitfields'])
     if variant == 'msan':                # clang MemorySanitizer: results that depend on uninitialised memory
         b = vlib.compile_msan(work, 'fieldmon_msan', src)
         if b is None:
@@ -113,7 +114,7 @@ ASSUME_COMMON = [
     'spec/wire.spec transcribes IEEE 1722-2016 / acf-vss.md correctly (hand-written, positions derived by summing widths)',
     'reference bit-field model (mon/vpcore.c bf_get/bf_set) is correct',
     'gcc 12 AddressSanitizer/UBSan runtime; arena write monitor sees every byte of an 8 KiB region around the PDU',
-    'additional builds of the same sources: strict -std=c99, -fshort-enums, -DNDEBUG, -funsigned-char, -Os, -march=native, clang MemorySanitizer (-O0, origin tracking), and a freestanding 32-bit (ILP32) i386 executable with its own runtime layer (mon/platform_ilp32.c)',
+    'additional builds of the same sources: strict -std=c99, -fshort-enums, -DNDEBUG, -funsigned-char -funsigned-bitfields, -Os -std=gnu2x, -march=native, clang MemorySanitizer (-O0, origin tracking), and a freestanding 32-bit (ILP32) i386 executable with its own runtime layer (mon/platform_ilp32.c)',
     'buffer contents and 64-bit values are sampled (PRNG seeded by VERIF_SEED); fields, paths, header bits and value classes are enumerated',
 ]
 
@@ -207,7 +208,7 @@ def c03(tier, seed):
         cov = dict(distinct_nontrivial=int(obs.stats.get('nontrivial', 0)),
                    rule='per format: sizeof(type), offsetof(payload), *_HEADER_LEN and payload accessor compared with the wire size; '
                         'then every field x {generic,dedicated,legacy} get and set, and every initialiser, on a buffer of exactly '
-                        '*_HEADER_LEN bytes: malloc block under ASan, and mmap blocks ending at / starting after a PROT_NONE page in '
+                        '*_HEADER_LEN bytes: malloc block under ASan (the header alone, and as the tail of a block of n+k bytes, k in {4,8,12,2,1}, so that it ends the object at every residue of its start address), and mmap blocks ending at / starting after a PROT_NONE page in '
                         'builds %s.  Non-trivial: accessor call on a field of non-zero width.' % ', '.join(variants) + gnote,
                    exhaustive=True, build_variants=variants)
         return vlib.finish('C03', 'exploration', tier, seed, obs, cov, ASSUME_COMMON + [
@@ -287,7 +288,7 @@ def c11(tier, seed):
         filt(obs, ['badargs:'])
         cov = dict(distinct_nontrivial=int(obs.stats.get('nontrivial', 0)) // len(seeds), repetitions_with_other_buffers=len(seeds),
                    rule='per format: generic get/set with identifiers {MAX, MAX+1, 127, 128, 255, 256+k, 512+k, 65536+k for every '
-                        'valid k, ceil(m*2^32/d)+k for d in {2,3,4,5,6,8,12,16,24} (identifiers that wrap to a valid index when scaled), INT_MAX, INT_MIN, -1, random} on all-ones/random buffers (reader must return 0, writer must leave '
+                        'valid k, ceil(m*2^32/d)+k for d in {2,3,4,5,6,8,12,16,24} (identifiers that wrap to a valid index when scaled), INT_MAX, INT_MIN, -1, random} on all-ones/random buffers and {MAX, MAX+1, ...} on realistic headers (canonical image, length fields saturated, every field of <= 8 bits at each of its values) (reader must return 0, writer must leave '
                         'the whole arena unchanged); null PDU through every generic/dedicated accessor and initialiser (no fault); '
                         'legacy wrappers over {null,valid} PDU x {null,valid} result x identifiers (rc == -EINVAL / 0, result slot '
                         'untouched on error).  Every case is a distinct invalid-argument combination.' + gnote)
